@@ -164,6 +164,8 @@ def kernel_lemmas(rep, timeout):
         pf = execute.explore(lambda: symify(em._compute_finite_vortex(r1, r2)))
         pr = execute.explore(lambda: symify(em._compute_finite_vortex(r2, r1)))
         ps = execute.explore(lambda: symify(em._compute_semi_infinite_vortex(u, r2)))
+    if len(ps) != 1:
+        raise RuntimeError("semi-infinite vortex kernel: %d paths (the lemmas below are written for its single expression)" % len(ps))
     obs = []
     for pa in pf:
         for pb in pr:
